@@ -2,7 +2,7 @@
    Statements only; each is closed by [exact] of a lemma proved in Strconv/*Proofs.v. *)
 From Coq Require Import Reals Floats.SpecFloat.
 From Flocq Require Import Core.Core IEEE754.BinarySingleNaN.
-From Verif Require Import Common.Base Strconv.Model Strconv.FModel Strconv.IntProofs Strconv.NumProofs Strconv.DecProofs Strconv.ScanProofs Strconv.FloatProofs Strconv.DecValueProofs Strconv.DecSideProofs Strconv.AccuracyProofs Strconv.AFProofs Strconv.AFShape Strconv.Legacy.
+From Verif Require Import Common.Base Strconv.Model Strconv.FModel Strconv.IntProofs Strconv.NumProofs Strconv.DecProofs Strconv.ScanProofs Strconv.FloatProofs Strconv.DecValueProofs Strconv.DecSideProofs Strconv.AccuracyProofs Strconv.AFProofs Strconv.AFShape Strconv.AFValueProofs Strconv.Legacy.
 Open Scope Z_scope.
 
 (* ParseInt, for EVERY byte string: written as sign ++ digits ++ rest (sign = "", "+" or "-";
@@ -261,8 +261,9 @@ Print Assumptions parse_decimal_fastpath_frac_partial.
    bounds (the listed finding class "extreme"), results within 1e-15 of MaxFloat64 ("near-max") and subnormal
    results. *)
 
-(* math.Pow10(k) is within 2^-51 of 10^k for -290 <= k <= 290 (computed on the table dumped from the toolchain) *)
-Theorem math_pow10_accurate : forall k, -290 <= k <= 290 ->
+(* math.Pow10(k) is within 2^-51 of 10^k for -308 <= k <= 308, i.e. wherever the power is a normal number
+   (computed on the table dumped from the toolchain) *)
+Theorem math_pow10_accurate : forall k, -308 <= k <= 308 ->
   exists (P : binary_float 53 1024) d, pow10 k = B2SF P /\ is_finite P = true /\
     B2R P = (Rp10 k * (1 + d))%R /\ (Rabs d <= uu)%R.
 Proof. exact pow10_rel. Qed.
@@ -323,11 +324,14 @@ Theorem parse_float_accuracy_trunc_frac : forall sg ip fp1 c fp2 tail,
 Proof. exact parse_float_accuracy_trunc_frac_proof. Qed.
 Print Assumptions parse_float_accuracy_trunc_frac.
 
-(* ParseDecimal, PARTIAL: the same bounds for numbers of at most 18 characters from the first non-zero digit on
-   (no digit dropped), any n < 10^18, up to 285 decimals.  MISSING: inputs with more than 18 such characters (the
-   code then drops digits, counting the dot as a character) and more than 285 decimals (search only; beyond 300
-   decimals the listed finding class "extreme"). *)
-Theorem parse_decimal_accuracy_int_partial : forall sg zs d1 ip' fp (dot : bool) tail,
+(* ParseDecimal on its normal path: five theorems, one for each shape of an accepted number with a non-zero digit.
+   The code keeps the characters up to the 18th from the first non-zero digit on (the dot counted as a character when
+   it comes after that digit) and drops the rest.  Normal path: the exponent of the kept mantissa in -290..285 (at
+   most 285 dropped integer digits, at most 285 decimals when nothing is dropped, at most 272 leading zero decimals
+   when digits are dropped from 0.000ddd).  Outside it: the listed finding class "extreme" (beyond 300 decimals /
+   308 integer digits), search only in between.
+   (1) at most 18 characters, dot after the first non-zero digit or absent: nothing dropped, bound 6 * 2^-51. *)
+Theorem parse_decimal_accuracy_int : forall sg zs d1 ip' fp (dot : bool) tail,
   (sg = [] \/ sg = [45]) -> all_zeros zs -> nonzero_digit d1 -> all_digits ip' -> all_digits fp ->
   (dot = false -> fp = []) -> ends_mant dot tail ->
   len (d1 :: ip') + (if dot then 1 + len fp else 0) <= 18 ->
@@ -338,9 +342,10 @@ Theorem parse_decimal_accuracy_int_partial : forall sg zs d1 ip' fp (dot : bool)
     let V := dec_real (sign_neg sg) n (- len fp) in
     (Rabs (B2R v - V) <= 6 * uu * Rabs V)%R /\ (Rabs (B2R v - round64 V) <= / 100000000000000 * Rabs (round64 V))%R.
 Proof. exact parse_decimal_accuracy_int_proof. Qed.
-Print Assumptions parse_decimal_accuracy_int_partial.
+Print Assumptions parse_decimal_accuracy_int.
 
-Theorem parse_decimal_accuracy_frac_partial : forall sg zs1 zs2 d1 sp' tail,
+(* (2) 0.000ddd / .ddd with at most 18 significant digits: nothing dropped *)
+Theorem parse_decimal_accuracy_frac : forall sg zs1 zs2 d1 sp' tail,
   (sg = [] \/ sg = [45]) -> all_zeros zs1 -> all_zeros zs2 -> nonzero_digit d1 -> all_digits sp' ->
   ends_mant true tail ->
   len (d1 :: sp') <= 18 -> len zs2 + len (d1 :: sp') <= 285 ->
@@ -351,4 +356,66 @@ Theorem parse_decimal_accuracy_frac_partial : forall sg zs1 zs2 d1 sp' tail,
     let V := dec_real (sign_neg sg) n (- (len zs2 + len (d1 :: sp'))) in
     (Rabs (B2R v - V) <= 6 * uu * Rabs V)%R /\ (Rabs (B2R v - round64 V) <= / 100000000000000 * Rabs (round64 V))%R.
 Proof. exact parse_decimal_accuracy_frac_proof. Qed.
-Print Assumptions parse_decimal_accuracy_frac_partial.
+Print Assumptions parse_decimal_accuracy_frac.
+
+(* (3) 18 or more integer digits: d1 ip1 (18 digits) kept, the further integer digits ip2 and the whole fraction
+   dropped; the value is compared with the number written with ALL its digits: within 7 * 2^-51 of it and 1e-14 of its
+   correctly rounded value. *)
+Theorem parse_decimal_accuracy_trunc_int : forall sg zs d1 ip1 ip2 fp (dot : bool) tail,
+  (sg = [] \/ sg = [45]) -> all_zeros zs -> nonzero_digit d1 -> all_digits ip1 -> len ip1 = 17 ->
+  all_digits ip2 -> all_digits fp -> (dot = false -> fp = []) -> ends_mant dot tail -> len ip2 <= 285 ->
+  exists (v : binary_float 53 1024) k,
+    parse_decimal (sg ++ zs ++ (d1 :: ip1) ++ ip2 ++ (if dot then 46 :: fp else []) ++ tail) = Ok (B2SF v, k) /\
+    is_finite v = true /\
+    let V := dec_real (sign_neg sg) (dec_value ((d1 :: ip1) ++ ip2 ++ fp)) (- len fp) in
+    (Rabs (B2R v - V) <= 7 * uu * Rabs V)%R /\ (Rabs (B2R v - round64 V) <= / 100000000000000 * Rabs (round64 V))%R.
+Proof. exact parse_decimal_accuracy_trunc_int_proof. Qed.
+Print Assumptions parse_decimal_accuracy_trunc_int.
+
+(* (4) the dot among the first 18 characters: d1 ip' . fp1 kept (18 characters, 17 digits), fp2 dropped *)
+Theorem parse_decimal_accuracy_trunc_dot : forall sg zs d1 ip' fp1 fp2 tail,
+  (sg = [] \/ sg = [45]) -> all_zeros zs -> nonzero_digit d1 -> all_digits ip' -> all_digits fp1 ->
+  len ip' + len fp1 = 16 -> all_digits fp2 -> ends_mant true tail ->
+  exists (v : binary_float 53 1024) k,
+    parse_decimal (sg ++ zs ++ (d1 :: ip') ++ 46 :: fp1 ++ fp2 ++ tail) = Ok (B2SF v, k) /\
+    is_finite v = true /\
+    let V := dec_real (sign_neg sg) (dec_value ((d1 :: ip') ++ fp1 ++ fp2)) (- (len fp1 + len fp2)) in
+    (Rabs (B2R v - V) <= 7 * uu * Rabs V)%R /\ (Rabs (B2R v - round64 V) <= / 100000000000000 * Rabs (round64 V))%R.
+Proof. exact parse_decimal_accuracy_trunc_dot_proof. Qed.
+Print Assumptions parse_decimal_accuracy_trunc_dot.
+
+(* (5) 0.000ddd / .ddd with more than 18 significant digits: d1 sp1 (18 digits) kept, sp2 dropped *)
+Theorem parse_decimal_accuracy_trunc_frac : forall sg zs1 zs2 d1 sp1 sp2 tail,
+  (sg = [] \/ sg = [45]) -> all_zeros zs1 -> all_zeros zs2 -> nonzero_digit d1 -> all_digits sp1 -> len sp1 = 17 ->
+  all_digits sp2 -> ends_mant true tail -> len zs2 + 18 <= 290 ->
+  exists (v : binary_float 53 1024) k,
+    parse_decimal (sg ++ zs1 ++ 46 :: zs2 ++ (d1 :: sp1) ++ sp2 ++ tail) = Ok (B2SF v, k) /\
+    is_finite v = true /\
+    let V := dec_real (sign_neg sg) (dec_value ((d1 :: sp1) ++ sp2)) (- (len zs2 + 18 + len sp2)) in
+    (Rabs (B2R v - V) <= 7 * uu * Rabs V)%R /\ (Rabs (B2R v - round64 V) <= / 100000000000000 * Rabs (round64 V))%R.
+Proof. exact parse_decimal_accuracy_trunc_frac_proof. Qed.
+Print Assumptions parse_decimal_accuracy_trunc_frac.
+
+(* AppendFloat for EVERY normal float64 (valid_binary, exponent field not 0; the subnormal numbers are the listed
+   finding class "subnormal"), every prec, destination and spare capacity.  With p' the adjusted precision
+   (prec - exp10 after the correction of 4092954) and mant = int64(|f| * 10^p') the scaled mantissa:
+   (1) mant fits int64: 0 <= mant < 10^19  (this closes the side condition of append_float_shape_partial);
+   (2) mant * 10^-p' is |f| truncated at the last requested digit, up to the binary64 noise of the scaling:
+       |mant * 10^-p' - |f|| <= 10^-p' + 5 * 2^-51 * |f|;
+   (3) the destination is preserved and what is appended is "0" when mant = 0 and otherwise a well-formed literal
+       with '-' exactly when f < 0.
+   MISSING for the property's parse-back clause: that the literal printed by the layout denotes exactly mant * 10^-p'
+   (the digits of mant with the dot/exponent placed by p'): proved only in shape (append_float_layout), tied by the
+   bit-for-bit correspondence and checked by the big-rational oracle; and that p' gives exactly prec+1 significant
+   digits, which fails by one digit on the listed class "pow10-boundary" (|f| next to a power of ten). *)
+Theorem append_float_normal_partial : forall b spare f prec, valid_binary 53 1024 f = true -> f_normal f = true ->
+  let neg := flt f fzero in
+  let g := if neg then fneg f else f in
+  let p' := af_prec g prec in
+  let mant := af_mant g prec in
+  0 <= mant < 10 ^ 19 /\
+  (Rabs (IZR mant * Rp10 (- p') - Rabs (SF2R radix2 f)) <= Rp10 (- p') + 5 * uu * Rabs (SF2R radix2 f))%R /\
+  exists out, append_float b spare f prec = Ok (b ++ out) /\
+              (mant = 0 -> out = [48]) /\ (0 < mant -> float_literal neg out).
+Proof. exact append_float_normal_proof. Qed.
+Print Assumptions append_float_normal_partial.
